@@ -119,13 +119,22 @@ Fixpoint directive_folds (lines : list (list N)) (i : Z) : list (Z * Z) :=
 
 Definition is_comment_line (line : list N) : bool :=
   match trim_space_u line with c :: _ => ((c =? 59) || (c =? 35))%N | [] => false end.
-(* comment blocks: maximal runs of comment lines (the Go loop jumps to endLine + 1) *)
-Fixpoint comment_folds (lines : list (list N)) (i : Z) (run_start : option Z) : list (Z * Z) :=
+(* comment blocks: maximal runs of comment lines of the same kind -- indented ones (an entry's own
+   comments) or top-level ones, never mixed (the Go loop jumps to endLine + 1) *)
+Definition close_run (run : option (Z * bool)) (i : Z) : list (Z * Z) :=
+  match run with Some (s, _) => if s <? i - 1 then [(s, i - 1)] else [] | None => [] end.
+Fixpoint comment_folds (lines : list (list N)) (i : Z) (run : option (Z * bool)) : list (Z * Z) :=
   match lines with
-  | [] => match run_start with Some s => if s <? i - 1 then [(s, i - 1)] else [] | None => [] end
+  | [] => close_run run i
   | l :: r =>
-      if is_comment_line l then comment_folds r (i + 1) (match run_start with Some s => Some s | None => Some i end)
-      else (match run_start with Some s => if s <? i - 1 then [(s, i - 1)] else [] | None => [] end) ++ comment_folds r (i + 1) None
+      if is_comment_line l then
+        match run with
+        | Some (s, ind) =>
+            if Bool.eqb ind (starts_blank l) then comment_folds r (i + 1) run
+            else close_run run i ++ comment_folds r (i + 1) (Some (i, starts_blank l))
+        | None => comment_folds r (i + 1) (Some (i, starts_blank l))
+        end
+      else close_run run i ++ comment_folds r (i + 1) None
   end.
 
 Definition folding_ranges (content : list N) (j : journal) : list (Z * Z) :=
